@@ -27,6 +27,8 @@ pub const V_STRUCT_NEST: u8 = 17; // struct{1: struct{3: i16}, 2: i8}
 pub const V_STRUCT_EMPTY: u8 = 18;
 pub const V_LIST_STRUCT: u8 = 19; // list<struct{1:i8}> of 2
 pub const V_LIST_BOOL_2: u8 = 20;
+pub const V_SET_EMPTY_BIN: u8 = 21; // empty set<binary>
+pub const V_SET_EMPTY_STRUCT: u8 = 22; // empty set<struct>
 
 pub const fn ttype_of_shape(shape: u8) -> TType {
     match shape {
@@ -39,7 +41,7 @@ pub const fn ttype_of_shape(shape: u8) -> TType {
         V_UUID => TType::Uuid,
         V_BINARY2 | V_BINARY0 => TType::Binary,
         V_LIST_I32_2 | V_LIST_EMPTY | V_LIST_BIN_1 | V_LIST_STRUCT | V_LIST_BOOL_2 => TType::List,
-        V_SET_I8_2 => TType::Set,
+        V_SET_I8_2 | V_SET_EMPTY_BIN | V_SET_EMPTY_STRUCT => TType::Set,
         V_MAP_I8_BIN | V_MAP_EMPTY | V_MAP_I16_I64 => TType::Map,
         _ => TType::Struct,
     }
@@ -104,6 +106,14 @@ pub fn write_shape<W: TOutputProtocol>(w: &mut W, shape: u8, l: &Leaves) {
             ok(w.write_set_begin(TSetIdentifier { element_type: TType::I8, size: 2 }));
             ok(w.write_i8(l.i8s[0]));
             ok(w.write_i8(l.i8s[1]));
+            ok(w.write_set_end());
+        }
+        V_SET_EMPTY_BIN => {
+            ok(w.write_set_begin(TSetIdentifier { element_type: TType::Binary, size: 0 }));
+            ok(w.write_set_end());
+        }
+        V_SET_EMPTY_STRUCT => {
+            ok(w.write_set_begin(TSetIdentifier { element_type: TType::Struct, size: 0 }));
             ok(w.write_set_end());
         }
         V_MAP_I8_BIN => {
@@ -359,6 +369,14 @@ pub fn len_shape<W: TLengthProtocol>(w: &mut W, shape: u8, l: &Leaves) -> usize 
             n += w.i8_len(l.i8s[1]);
             n += w.set_end_len();
         }
+        V_SET_EMPTY_BIN => {
+            n += w.set_begin_len(TSetIdentifier { element_type: TType::Binary, size: 0 });
+            n += w.set_end_len();
+        }
+        V_SET_EMPTY_STRUCT => {
+            n += w.set_begin_len(TSetIdentifier { element_type: TType::Struct, size: 0 });
+            n += w.set_end_len();
+        }
         V_MAP_I8_BIN => {
             n += w.map_begin_len(TMapIdentifier { key_type: TType::I8, value_type: TType::Binary, size: 1 });
             n += w.i8_len(l.i8s[0]);
@@ -483,6 +501,16 @@ pub fn read_shape<R: TInputProtocol>(r: &mut R, shape: u8, l: &Leaves) -> bool {
             g &= h.element_type == TType::I8 && h.size == 2;
             g &= ok(r.read_i8()) == l.i8s[0];
             g &= ok(r.read_i8()) == l.i8s[1];
+            ok(r.read_set_end());
+        }
+        V_SET_EMPTY_BIN => {
+            let h = ok(r.read_set_begin());
+            g &= h.element_type == TType::Binary && h.size == 0;
+            ok(r.read_set_end());
+        }
+        V_SET_EMPTY_STRUCT => {
+            let h = ok(r.read_set_begin());
+            g &= h.element_type == TType::Struct && h.size == 0;
             ok(r.read_set_end());
         }
         V_MAP_I8_BIN => {
